@@ -1008,6 +1008,20 @@ def rule_transparent_groups(ctx):
                           "prints as `(field = field)` and only the next run puns it" if strict else ""),
                           [bd["loc"][0], node.get("ln")], detail={"fn": p.split("::")[-1], "payload": arg[:60]})
     ctx.floor(rule, "pun recognition sites", n, 3)
+    # telescopes: the nested scope that may join the telescope is the body seen through the groups the printer elides
+    for short in ("scoped_telescope", "existential_telescope"):
+        p = FORMATTER + short
+        h = ctx.need_hir(rule, p)
+        if h is None:
+            continue
+        env = A.ArmEnv(); env.strip = True; env.bind_params(h); env.absorb(h["body"])
+        asked = [A.sexpr(H.call_args(c)[2], env) for c in H.walk(h["body"]) if H.kind(c) in ("Call", "MethodCall")
+                 and (H.callee(c) or "").endswith("::scope_boundary_allows_merging") and len(H.call_args(c)) >= 3]
+        ok = bool(asked) and all(re.match(r"^\(%stransparent_term_group \$P0 " % re.escape(FORMATTER), a) for a in asked)
+        ctx.check(ok, rule, "%s:nested-scope" % short, "%s decides whether a nested scope joins the telescope from %s, not from the body "
+                  "seen through the singleton groups the printer elides: `fn (x : A) => (fn (y : B) => z)` prints as `fn (x : A) => fn "
+                  "(y : B) => z` and only the next run merges the parameters" % (short, [a[:80] for a in asked]),
+                  facts.bodies()[p]["loc"], detail={"asked about": [a[:80] for a in asked]})
 
 
 # str / slice API on comment text, per function: capture (comment.rs) and emission (pretty.rs) must lose nothing but the marker,
@@ -1022,7 +1036,7 @@ TEXT_API = {
     COMMENT + "CommentBlocks::<'source>::comment_token": {"get(..)", "starts_with(--)"},
     COMMENT + "CommentBlocks::<'source>::same_block": {"get(..)", "chars()"},
     COMMENT + "CommentBlocks::<'source>::indentation": {"len()", "trim_start_matches(is_horizontal_whitespace)"},
-    COMMENT + "CommentBlocks::<'source>::opening_indentation": {"rfind(\\n)", "chars()", "len()"},
+    COMMENT + "CommentBlocks::<'source>::opening_indentation": {"rfind(\\n)", "chars()"},
 }
 
 
@@ -1157,31 +1171,83 @@ def rule_comment_text(ctx):
 def rule_comment_indentation(ctx):
     rule = "comment-indentation"
     facts = ctx.facts
-    ctx.rule(rule, "capture and emission of a multi-line block comment agree on the base column of its continuation lines: capture "
-                   "(CommentBlocks::opening_indentation) removes the opening column when the comment opens its line and NOTHING when it "
-                   "follows code; the printer (block_comment) prints the continuation lines under the current nesting when the comment "
-                   "starts its line (column == nesting) and with the nesting cancelled otherwise. If the printer adds the nesting in "
-                   "both cases, every run indents the continuation lines of a comment that follows code further (the text of the "
-                   "comment changes and the output never becomes stable)")
+    ctx.rule(rule, "capture and emission of a multi-line block comment agree on the base column of its continuation lines, and neither "
+                   "depends on what precedes the comment on its line: capture (CommentBlocks::opening_indentation) measures them against "
+                   "the column of the opener (the number of characters before it on its line, unconditionally); the printer "
+                   "(block_comment) prints them nested by `column - nesting`, i.e. relative to the column where the opener lands. If "
+                   "one side uses the opener's column only when the comment opens its line (or the printer simply adds the nesting), a "
+                   "comment after code gains indentation on every run: its text changes and the output never becomes stable (F51; the "
+                   "`column == nesting` test of the first repair mistook a comment after an arm's bar for one that opens its line)")
     fn = COMMENT + "CommentBlocks::<'source>::opening_indentation"
     h = ctx.need_hir(rule, fn)
-    cap = None
     if h is not None:
         env = A.ArmEnv(); env.strip = True; env.bind_params(h); env.absorb(h["body"])
         sx = A.sexpr(h["body"], env)
-        m = re.match(r"^\(if \(core::iter::traits::iterator::Iterator::all \(core::str::<impl str>::chars (?P<P>.+)\) [\w:]*::is_horizontal_whitespace\) "
-                     r"\(core::str::<impl str>::len (?P=P)\) 0\)$", sx, re.S)
-        cap = m is not None
-        ctx.check(cap, rule, "capture:opening-column-or-zero", "opening_indentation is not `if the text before the opener on its line is "
-                  "horizontal whitespace then its length else 0`: %s" % sx[:300], facts.bodies()[fn]["loc"], detail={"body": sx[:300]})
+        m = re.match(r"^\(<core::str::iter::Chars<'a> as core::iter::traits::iterator::Iterator>::count \(core::str::<impl str>::chars "
+                     r"\(\[\] \(\. \$P0 source\) \(core::ops::range::Range start=\(core::option::Option::<T>::map_or \(core::str::<impl str>::rfind "
+                     r"\(\[\] \(\. \$P0 source\) \(core::ops::range::RangeTo end=\$P1\)\) \n\) 0 \(closure \(Add \$c0\.0 1\)\)\) end=\$P1\)\)\)\)$", sx, re.S)
+        ctx.check(m is not None, rule, "capture:opener-column", "opening_indentation is not the number of characters between the start of the "
+                  "opener's line and the opener, unconditionally: %s" % sx[:300], facts.bodies()[fn]["loc"], detail={"body": sx[:300]})
     fn = FORMATTER + "block_comment"
     h = ctx.need_hir(rule, fn)
     if h is not None:
         env = A.ArmEnv(); env.strip = True; env.bind_params(h); env.absorb(h["body"])
         sx = A.sexpr(h["body"], env)
         T = r"pretty::RcDoc::<'a, A>::"
-        m = re.match(r"^\(%scolumn \(closure \(%snesting \(closure \(if \(Eq \$c0\.0 \$c1\.0\) (?P<L>\(%sintersperse .+\)) "
-                     r"\(%snest (?P=L) \(Neg [^$]*\$c1\.0[^$]*\)\)\)\)\)\)\)$" % (T, T, T, T), sx, re.S)
-        ctx.check(m is not None, rule, "emission:nesting-cancelled-after-code", "block_comment does not print the same lines under the "
-                  "nesting when the comment starts its line (column == nesting) and with `nest(-nesting)` otherwise: %s" % sx[:400],
-                  facts.bodies()[fn]["loc"], detail={"body": sx[:200]})
+        m = re.match(r"^\(%scolumn \(closure \(%snesting \(closure \(%snest \(%sintersperse .+\) "
+                     r"\(core::num::<impl isize>::(saturating_sub|wrapping_sub|checked_sub) [^$]*\$c0\.0[^$]*\$c1\.0[^$]*\)\)\)\)\)\)$" % (T, T, T, T), sx, re.S) \
+            or re.match(r"^\(%scolumn \(closure \(%snesting \(closure \(%snest \(%sintersperse .+\) \(Sub [^$]*\$c0\.0[^$]*\$c1\.0[^$]*\)\)\)\)\)\)$"
+                        % (T, T, T, T), sx, re.S)
+        ctx.check(m is not None and " (if " not in sx, rule, "emission:relative-to-opener", "block_comment does not print the continuation lines "
+                  "nested by (column - nesting), unconditionally: %s" % sx[:400], facts.bodies()[fn]["loc"], detail={"body": sx[:200]})
+
+
+# the only functions of the printer that may look inside a recorded BreakIntent
+INTENT_POLICY = {
+    FORMATTER + "preserves_blank_line": "policy: Preserve / BlankLinesOnly keep a blank line",
+    FORMATTER + "forces_break": "policy: what each LayoutIntentions value keeps",
+    PRETTY + "BoundaryIntent::resolve": "narrows a boundary to its blank line (PreserveBlankLine); the result still goes through the policy",
+}
+
+
+def rule_intention_policy(ctx):
+    rule = "intention-policy"
+    facts = ctx.facts
+    ctx.rule(rule, "in the printer only the policy functions (forces_break, preserves_blank_line) and BoundaryIntent::resolve look inside "
+                   "a recorded BreakIntent (a pattern or comparison naming one of its variants, or requires_line_break); every layout "
+                   "decision asks the policy. A decision taken on the raw intention is not subject to `layout(ignore)` / "
+                   "`blank-lines-only`: the first run obeys the source layout, its output no longer has it, and the second run "
+                   "decides differently (not idempotent)")
+    n = 0
+    seen_policy = set()
+    for p, bd in sorted(facts.bodies().items()):
+        if not p.startswith(PRETTY) or "::tests::" in p or "{closure" in p:
+            continue
+        h = facts.hir(p)
+        if h is None:
+            continue
+        n += 1
+        hits = []
+        for x in H.walk(h["body"]):
+            k = H.kind(x)
+            if k == "Match":
+                for a in x["arms"]:
+                    if any("BreakIntent::" in v for v in H.pat_variants(a["pat"])):
+                        hits.append((x.get("ln"), "pattern " + A.pat_shape(a["pat"])[:40]))
+            elif k == "Path" and "BreakIntent::" in str((x.get("res") or {}).get("def") or "") and (x.get("res") or {}).get("dk") == "CtorVariant":
+                hits.append((x.get("ln"), "names " + str((x.get("res") or {}).get("def")).split("::")[-1]))
+            elif k in ("Call", "MethodCall") and (H.callee(x) or "").endswith("BreakIntent::requires_line_break"):
+                hits.append((x.get("ln"), "requires_line_break"))
+        if not hits:
+            continue
+        if p in INTENT_POLICY:
+            seen_policy.add(p)
+            ctx.ok(rule, "policy:%s" % p.split("::")[-1], {"inspects": sorted({w for _, w in hits})[:4]})
+            continue
+        ctx.violation(rule, "%s:inspects-raw-intention" % p.split("::")[-1], "%s looks inside a recorded BreakIntent (%s) instead of asking "
+                      "forces_break / preserves_blank_line: under `layout(ignore)` the source layout still steers the first run, and the "
+                      "second run, whose input no longer has it, prints something else" % (p.split("::")[-1], sorted({w for _, w in hits})[:3]),
+                      [bd["loc"][0], hits[0][0]])
+    ctx.floor(rule, "printer functions inspected", n, 150)
+    ctx.check(len(seen_policy) >= 2, rule, "policy-functions", "the policy functions no longer inspect BreakIntent (%s): the rule has lost its anchor"
+              % sorted(x.split("::")[-1] for x in seen_policy))
